@@ -1470,6 +1470,12 @@ class SocketStream(abc.SocketStream):
         with self._send_guard:
             await AsyncIOBackend.checkpoint()
 
+            # Data left behind by a send() that was cancelled while waiting must
+            # drain first: don't pile more on top of it (the event is also set when
+            # the connection is lost)
+            if not self._closed and not self._protocol.write_event.is_set():
+                await self._protocol.write_event.wait()
+
             if self._closed:
                 raise ClosedResourceError
             elif self._protocol.exception is not None:
